@@ -173,6 +173,22 @@ def assemble(template_path, unit, default_props, skip_fns=None):
                                   'sha256': hashlib.sha256(txt.encode()).hexdigest(), 'props': default_props})
             i += 1
             continue
+        if s.startswith('//@yl_classes '):
+            # `//@yl_classes file=yarel/src/core.yl fn=core_class_names`: the names of the top-level classes the core library
+            # (written in yarel) defines in `main`, read from its text on this run, as a spec sequence of names
+            kv = _parse_kv(s[14:])
+            pth = os.path.join(REPO, kv['file'])
+            if not os.path.exists(pth):
+                raise ExtractError("anchor lost: file %s does not exist" % kv['file'])
+            txt_ = open(pth).read()
+            names_ = re.findall(r'^class\s+(\w+)', txt_, re.M)
+            if not names_:
+                raise ExtractError("anchor lost: no top-level class in %s" % kv['file'])
+            out.append('pub open spec fn %s() -> Seq<Seq<char>> { seq![%s] }  // top-level classes of %s' % (kv['fn'], ', '.join('"%s"@' % n for n in names_), kv['file']))
+            asm.functions.append({'name': 'class list of ' + kv['file'], 'file': kv['file'], 'line': 1,
+                                  'sha256': hashlib.sha256(txt_.encode()).hexdigest(), 'props': default_props})
+            i += 1
+            continue
         if s.startswith('//@rules '):
             # `//@rules file=… name=RULES enum_file=… enum=TokenKind`: the Pratt table `const RULES: [ParseRule; N]` is indexed by
             # `kind as usize`; row i therefore belongs to the i-th variant of the fieldless enum (declaration order = discriminant,
